@@ -62,11 +62,12 @@ impl Rewrite<MetaVariable> {
       let mut ret = vec![];
       let mut edits = edits.into_iter();
       if let Some(first) = edits.next() {
-        let mut pos = first.position - start + first.deleted_length;
+        // a fix with expandStart may begin before the rewritten text
+        let mut pos = first.position.saturating_sub(start) + first.deleted_length;
         ret.extend(first.inserted_text);
         let joiner = D::Source::decode_str(joiner);
         for edit in edits {
-          let p = edit.position - start;
+          let p = edit.position.saturating_sub(start);
           // skip overlapping edits
           if pos > p {
             continue;
@@ -137,14 +138,17 @@ fn make_edit<D: Doc>(
   let mut new_content = vec![];
   let mut start = 0;
   for edit in edits {
-    let pos = edit.position - offset;
+    // a fix with expandStart / expandEnd may reach outside the text being rewritten:
+    // only the part inside it can be replaced here
+    let end = (edit.position + edit.deleted_length).saturating_sub(offset);
+    let pos = edit.position.saturating_sub(offset).min(old_content.len());
     // skip overlapping edits
     if start > pos {
       continue;
     }
     new_content.extend_from_slice(&old_content[start..pos]);
     new_content.extend_from_slice(&edit.inserted_text);
-    start = pos + edit.deleted_length;
+    start = end.clamp(pos, old_content.len());
   }
   // add trailing statements
   new_content.extend_from_slice(&old_content[start..]);
